@@ -16,6 +16,7 @@ import Alos2.Proofs.Geometry
 import Alos2.Props.C02
 import Alos2.Proofs.RpcIndep
 import Alos2.Proofs.ProductRpc
+import Alos2.Proofs.ReaderPixels
 
 namespace Alos2.C06
 
@@ -61,6 +62,49 @@ theorem product_rpc_independent (fs : Files) (rpc1 rpc2 : Nat) (p1 p2 : Product)
     p1.rootAttrs = p2.rootAttrs ∧ p1.summary = p2.summary ∧ p1.metadata = p2.metadata ∧
     p1.imagery.map Prod.fst = p2.imagery.map Prod.fst :=
   openProduct_rpc_independent fs rpc1 rpc2 p1 p2 h1 h2
+
+/-- END TO END on the models: the same image file opened by the layout-based reader with two positive chunk sizes — every basic
+    selection on the two lazy arrays built from what the reader returned gives the same result (values, shape, errors) -/
+theorem reader_data_rpc_independent (file : Bytes) (name : String) (rpc1 rpc2 : Nat)
+    (n1 n2 : String) (g1 g2 : ImageGroup)
+    (h1 : openImageFile file name rpc1 = .ok (n1, g1)) (h2 : openImageFile file name rpc2 = .ok (n2, g2))
+    (hd1 hd2 : Val) (recs1 recs2 : List Val)
+    (hr1 : readImageRecords file rpc1 = .ok (hd1, recs1)) (hr2 : readImageRecords file rpc2 = .ok (hd2, recs2))
+    (hp1 : 0 < rpc1) (hp2 : 0 < rpc2) (hn : 0 < recs1.length)
+    (L : Nat) (hL : 0 < L) (hdrL : intAt hd1 ["sar_data_record_length"] = .ok (L : Int))
+    (t : Nat) (ht : t = 10 ∨ t = 11)
+    (hrl1 : ∀ r ∈ recs1, intAt r ["preamble", "record_length"] = .ok (L : Int))
+    (hty1 : ∀ r ∈ recs1, intAt r ["preamble", "record_type"] = .ok (t : Int))
+    (hrl2 : ∀ r ∈ recs2, intAt r ["preamble", "record_length"] = .ok (L : Int))
+    (hty2 : ∀ r ∈ recs2, intAt r ["preamble", "record_type"] = .ok (t : Int))
+    (m bpp : Nat) (dt : String)
+    (hbpp : Gen.dtypes.find? (fun d => d.1 = g1.array.typeCode) = some (g1.array.typeCode, dt, bpp))
+    (hshape : g1.array.shape = (((recs1.length : Nat) : Int), ((m : Nat) : Int)))
+    (hLm : L = prefixOf t + m * bpp) (k0 k1 : Idx) :
+    (getitem (imageOfMeta file g1.array bpp) k0 k1).1 = (getitem (imageOfMeta file g2.array bpp) k0 k1).1 := by
+  obtain ⟨hhd, hrecs⟩ := readImageRecords_rpc_independent file rpc1 rpc2 hd1 hd2 recs1 recs2 hr1 hr2 L hL hdrL t ht hrl1 hty1 hrl2 hty2
+  obtain ⟨_, _, harr⟩ := openImageFile_rpc_independent file name rpc1 rpc2 n1 n2 g1 g2 h1 h2 hd1 hd2 recs1 recs2 hr1 hr2 L hL hdrL t ht
+    hrl1 hty1 hrl2 hty2
+  subst hhd; subst hrecs
+  have htc : g2.array.typeCode = g1.array.typeCode := by rw [harr]
+  have hsh : g2.array.shape = g1.array.shape := by rw [harr]
+  obtain ⟨e1, hb, hsize⟩ := reader_image_is_regular file name rpc1 n1 g1 h1 hd1 recs1 hr1 hp1 hn L hL hdrL hrl1 t ht hty1 m bpp dt hbpp
+    hshape hLm
+  obtain ⟨e2, _, _⟩ := reader_image_is_regular file name rpc2 n2 g2 h2 hd1 recs1 hr2 hp2 hn L hL hdrL hrl2 t ht hty2 m bpp dt
+    (by rw [htc]; exact hbpp) (by rw [hsh]; exact hshape) hLm
+  let g' : Geometry := { n := recs1.length, m := m, bpp := bpp, P := prefixOf t, code := t }
+  have hgL : g'.L = L := hLm.symm
+  obtain ⟨full, hload, _, hrect, _⟩ := Geometry.loadAll_regular g' file hb (by rw [hgL]; exact hsize) rpc1
+  rw [e1, e2]
+  have a := C02.getitem_eq_np (g'.image file rpc1) full ⟨hload, hrect⟩ (normalizeChunksize_pos rpc1 g'.n hp1 hn) k0 k1
+  obtain ⟨full2, hload2, _, hrect2, _⟩ := Geometry.loadAll_regular g' file hb (by rw [hgL]; exact hsize) rpc2
+  have b := C02.getitem_eq_np (g'.image file rpc2) full2 ⟨hload2, hrect2⟩ (normalizeChunksize_pos rpc2 g'.n hp2 hn) k0 k1
+  have hfull : full2 = full := by
+    have l1 : loadAll (g'.image file rpc2) = loadAll (g'.image file rpc1) := rfl
+    rw [l1, hload] at hload2
+    exact (Except.ok.inj hload2).symm
+  rw [a, b, hfull]
+  rfl
 
 theorem preferred_chunksize (rpc n : Nat) : normalizeChunksize rpc n = min rpc n :=
   normalizeChunksize_eq_min rpc n
